@@ -451,7 +451,7 @@ def reachable(eff, start):
     return seen
 
 
-def gen_locks_mc(templates):
+def gen_locks_mc(templates, modname="MC_Locks_gen"):
     def rec(s):
         m, mode = s.split(":")
         return '[map |-> "%s", mode |-> "%s"]' % (m, mode)
@@ -459,7 +459,7 @@ def gen_locks_mc(templates):
     for t in templates:
         held = ", ".join(rec(h) for h in t["held"])
         tps.append("[held |-> <<%s>>, req |-> %s]" % (held, rec(t["req"])))
-    body = "---- MODULE MC_Locks_gen ----\nEXTENDS Locks\nGenTemplates == <<\n  %s\n>>\n====\n" % ",\n  ".join(tps)
+    body = "---- MODULE %s ----\nEXTENDS Locks\nGenTemplates == <<\n  %s\n>>\n====\n" % (modname, ",\n  ".join(tps))
     return body
 
 
@@ -573,13 +573,24 @@ def check_c12(tier):
     if missing:
         raise C.ToolError("C12 self-test: entry points never exercised: %s" % missing)
     tlist = sorted(templates.values(), key=lambda t: json.dumps(t, sort_keys=True))
-    # ---- (2) TLC: the observed nesting templates under every schedule and placement
-    with open(os.path.join(C.SPEC, "MC_Locks_gen.tla"), "w") as fh:
-        fh.write(gen_locks_mc(tlist) if tlist else "---- MODULE MC_Locks_gen ----\nEXTENDS Locks\nGenTemplates == <<[held |-> <<>>, req |-> [map |-> \"definitions\", mode |-> \"R\"]]>>\n====\n")
+    # ---- (2) TLC: the observed nesting templates under every schedule and placement.  A template that holds nothing while
+    # it requests its lock can never be part of a wait cycle (it waits holding nothing, and once it holds it requests nothing):
+    # only NESTING templates are handed to TLC.  The generated module is private to this process (concurrent checks).
+    nesting = [t for t in tlist if t["held"]]
+    gmod = "MC_Locks_gen_%d" % os.getpid()
+    gtla, gcfg = os.path.join(C.SPEC, gmod + ".tla"), os.path.join(C.SPEC, gmod + ".cfg")
+    with open(gtla, "w") as fh:
+        fh.write(gen_locks_mc(nesting, gmod) if nesting else
+                 "---- MODULE %s ----\nEXTENDS Locks\nGenTemplates == <<[held |-> <<>>, req |-> [map |-> \"definitions\", mode |-> \"R\"]]>>\n====\n" % gmod)
     threads = "{1, 2}" if tier == "quick" else "{1, 2, 3}"
-    with open(os.path.join(C.SPEC, "MC_Locks_gen.cfg"), "w") as fh:
+    with open(gcfg, "w") as fh:
         fh.write("CONSTANTS\n  Templates <- GenTemplates\n  Threads = %s\n  Shards = {0, 1}\nSPECIFICATION Spec\nCHECK_DEADLOCK FALSE\nINVARIANTS\n  NoDeadlock\n" % threads)
-    meta = C.run_tlc("MC_Locks_gen", "MC_Locks_gen.cfg", workers=8, timeout=3600)
+    try:
+        meta = C.run_tlc(gmod, gmod + ".cfg", workers=8, timeout=3600, cache=False)
+    finally:
+        for f in (gtla, gcfg):
+            if os.path.exists(f):
+                os.unlink(f)
     if not meta["ok"]:
         if any("Invariant NoDeadlock is violated" in e for e in meta["errors"]):
             V.violation({"templates": tlist, "tlc": meta["errors"]},
